@@ -46,6 +46,7 @@ theorem mem_setSeq {s : St} {q0 q : Seq} (h : q ∈ (setSeq s q0).seqs) : q ∈ 
 @[simp] theorem setRa_h (s : St) (r : Rollapp) : (setRa s r).h = s.h := rfl
 @[simp] theorem setRa_t (s : St) (r : Rollapp) : (setRa s r).t = s.t := rfl
 @[simp] theorem setRa_p (s : St) (r : Rollapp) : (setRa s r).p = s.p := rfl
+@[simp] theorem setRa_sqp (s : St) (r : Rollapp) : (setRa s r).sqp = s.sqp := rfl
 @[simp] theorem setRa_modBal (s : St) (r : Rollapp) : (setRa s r).modBal = s.modBal := rfl
 @[simp] theorem setRa_bal (s : St) (r : Rollapp) : (setRa s r).bal = s.bal := rfl
 @[simp] theorem setRa_nq (s : St) (r : Rollapp) : (setRa s r).nq = s.nq := rfl
@@ -58,6 +59,7 @@ theorem mem_setSeq {s : St} {q0 q : Seq} (h : q ∈ (setSeq s q0).seqs) : q ∈ 
 @[simp] theorem setSeq_h (s : St) (q : Seq) : (setSeq s q).h = s.h := rfl
 @[simp] theorem setSeq_t (s : St) (q : Seq) : (setSeq s q).t = s.t := rfl
 @[simp] theorem setSeq_p (s : St) (q : Seq) : (setSeq s q).p = s.p := rfl
+@[simp] theorem setSeq_sqp (s : St) (q : Seq) : (setSeq s q).sqp = s.sqp := rfl
 @[simp] theorem setSeq_modBal (s : St) (q : Seq) : (setSeq s q).modBal = s.modBal := rfl
 @[simp] theorem setSeq_bal (s : St) (q : Seq) : (setSeq s q).bal = s.bal := rfl
 @[simp] theorem setSeq_nq (s : St) (q : Seq) : (setSeq s q).nq = s.nq := rfl
@@ -126,6 +128,70 @@ theorem RaAll.get {Q : Rollapp → Prop} {s : St} {id : Nat} {r : Rollapp} (h : 
 theorem RaAll.of_ras_eq {Q : Rollapp → Prop} {s s' : St} (h : RaAll Q s) (e : s'.ras = s.ras) :
     RaAll Q s' := by
   intro r hr; rw [e] at hr; exact h r hr
+
+-- ---------------------------------------------------------------- the standalone punish proposal
+
+/-- an accepted `PunishSequencerProposal` came from the governance authority and is exactly
+    `PunishSequencer` (no fork, no role change) -/
+theorem punishProposal_ok {s s' : St} {au : Bool} {a : Addr} {rw : Option Addr}
+    (e : punishProposal s au a rw = .ok s') : au = true ∧ punish s a rw = .ok s' := by
+  unfold punishProposal at e
+  cases au with
+  | false => simp at e
+  | true => exact ⟨rfl, by simpa using e⟩
+
+-- ---------------------------------------------------------------- ownership transfer
+
+/-- an accepted `MsgTransferOwnership`: signed by the current owner, to a different, non-blocked address;
+    only the `owner` field of that one rollapp record changes -/
+theorem transferOwner_ok {s s' : St} {sg : Addr} {ra : Nat} {no : Addr}
+    (e : transferOwner s sg ra no = .ok s') :
+    ∃ r, getRa s ra = some r ∧ r.owner = sg ∧ r.owner ≠ no ∧ blockedAddr no = false ∧
+      s' = setRa s { r with owner := no } := by
+  unfold transferOwner at e
+  split at e
+  · cases e
+  · rename_i r hg
+    split at e
+    · cases e
+    · rename_i h1
+      split at e
+      · cases e
+      · rename_i h2
+        split at e
+        · cases e
+        · rename_i h3
+          injection e with e
+          refine ⟨r, hg, by simpa using h1, by simpa using h2, by simpa using h3, e.symm⟩
+
+-- ---------------------------------------------------------------- sequencer parameters
+
+/-- both parameter sets of the state: the genesis set (whose x/rollapp part the handlers read) and the
+    x/sequencer set in force.  The frame relations (`Roles.Frame`, `LevNs.SameL`, `LevNs.LFrame`) carry
+    `pp s' = pp s`: every transition except `setSeqParams` keeps both. -/
+def pp (s : St) : Params × SeqParams := (s.p, s.sqp)
+
+theorem pp_p {s s' : St} (h : pp s' = pp s) : s'.p = s.p := congrArg Prod.fst h
+theorem pp_sqp {s s' : St} (h : pp s' = pp s) : s'.sqp = s.sqp := congrArg Prod.snd h
+
+/-- an accepted x/sequencer `MsgUpdateParams`: from the authority, with a positive notice period and a
+    non-zero kick threshold; only the sequencer parameter set changes -/
+theorem setSeqParams_ok {s s' : St} {au : Bool} {sp : SeqParams} (e : setSeqParams s au sp = .ok s') :
+    au = true ∧ 0 < sp.noticePeriod ∧ 0 < sp.kickThr ∧ s' = { s with sqp := sp } := by
+  unfold setSeqParams at e
+  split at e
+  · cases e
+  · rename_i h1
+    split at e
+    · cases e
+    · rename_i h2
+      split at e
+      · cases e
+      · split at e
+        · cases e
+        · rename_i h4
+          injection e with e
+          exact ⟨by simpa using h1, Nat.pos_of_ne_zero h2, Nat.pos_of_ne_zero h4, e.symm⟩
 
 /-- `Q` only looks at the `states` field -/
 def StatesOnly (Q : Rollapp → Prop) : Prop := ∀ r r' : Rollapp, r'.states = r.states → Q r → Q r'
